@@ -99,19 +99,21 @@ def run(tier, seed, opens):
             accounts = {0}
             for x in w.keys(depth=5):                      # Wallet.create already issues the first receiving (and possibly change) key
                 pp = x.path.split('/')
-                issued.setdefault((int(pp[3].rstrip("'")), int(pp[4])), set()).add(int(pp[5]))
+                issued.setdefault((int(pp[3].rstrip("'")), int(pp[4]), wt), set()).add(int(pp[5]))
 
-            def check_key(k, what, acc=None, change=None, idx=None):
+            def check_key(k, what, acc=None, change=None, idx=None, rw=None):
                 nonlocal cases, ok
                 cases += 1
                 scen = {'wallet': {'witness_type': wt, 'network': net, 'seed': sd.hex()}, 'history': list(history)}
                 parts = k.path.split('/')
+                kw = rw or {v: t for t, v in PURPOSE.items()}.get(int(parts[1].rstrip("'")) if len(parts) > 1 and parts[1].rstrip("'").isdigit() else -1, wt)
+                kpurpose = PURPOSE[kw]
                 try:
                     p_acc, p_change, p_idx = int(parts[3].rstrip("'")), int(parts[4]), int(parts[5])
                 except Exception:
-                    fail(what, scen, 'path %r' % k.path, "m/%d'/%d'/a'/c/i" % (purpose, coin))
+                    fail(what, scen, 'path %r' % k.path, "m/%d'/%d'/a'/c/i" % (kpurpose, coin))
                     return None
-                want_prefix = "m/%d'/%d'/%d'" % (purpose, coin, p_acc)
+                want_prefix = "m/%d'/%d'/%d'" % (kpurpose, coin, p_acc)
                 problems = []
                 if not k.path.startswith(want_prefix + '/') or len(parts) != 6:
                     problems.append('path %s does not follow %s/change/index' % (k.path, want_prefix))
@@ -119,10 +121,10 @@ def run(tier, seed, opens):
                     problems.append('path %s is not on branch account %d change %d' % (k.path, acc, change))
                 if idx is not None and p_idx != idx:
                     problems.append('index %d handed out, expected %d' % (p_idx, idx))
-                sk, _ = derive(sd, [purpose + H, coin + H, p_acc + H, p_change, p_idx])
+                sk, _ = derive(sd, [kpurpose + H, coin + H, p_acc + H, p_change, p_idx])
                 pub = _ser_p(ec.mul_g(sk))
-                if k.address != address(pub, wt, net):
-                    problems.append('address %s is not the BIP32 derivation for %s (%s)' % (k.address, k.path, address(pub, wt, net)))
+                if k.address != address(pub, kw, net):
+                    problems.append('address %s is not the BIP32 derivation for %s as %s (%s)' % (k.address, k.path, kw, address(pub, kw, net)))
                 if problems:
                     fail(what, scen, '; '.join(problems), 'key at the documented path with the BIP32-derived address')
                 else:
@@ -132,20 +134,27 @@ def run(tier, seed, opens):
             # scripted histories first (the same for every wallet), then random ones
             script = [('key_for_path', 0, 0, 2), ('key_for_path', 0, 0, 1), ('new_key', 0), ('new_key', 0), ('get_keys', 0), ('new_account',),
                       ('new_key', 0), ('set_default_account', 1), ('new_key', 0), ('new_key_change', 0), ('get_key', 0), ('key_for_path', 0, 1, 3),
-                      ('key_for_path', 0, 1, 1), ('reopen',), ('new_key_change', 0), ('new_key', 1), ('set_default_account', 0)]
+                      ('key_for_path', 0, 1, 1), ('reopen',), ('new_key_change', 0), ('new_key', 1), ('set_default_account', 0),
+                      ('get_keys', 0, 'other'), ('new_key', 0, 'other'), ('new_key', 0, 'other'), ('new_key_change', 0, 'other'), ('reopen',), ('new_key', 0, 'other')]
             for step in range(len(script) + n_steps):
                 forced = script[step] if step < len(script) else None
                 op = forced[0] if forced else rng.choice(['new_key', 'new_key', 'new_key_change', 'get_key', 'get_keys', 'key_for_path', 'key_for_path', 'new_account', 'reopen'])
                 acc = forced[1] if forced and len(forced) > 1 else rng.choice(sorted(accounts))
+                others = [t for t in ('legacy', 'p2sh-segwit', 'segwit') if t != wt]
+                if forced:
+                    rw = others[wn % 2] if forced[-1] == 'other' else wt
+                else:
+                    rw = wt if rng.random() < 0.7 else rng.choice(others)
+                tag = '' if rw == wt else ', witness_type=%s' % rw
                 try:
                     if op in ('new_key', 'new_key_change'):
                         change = 1 if op == 'new_key_change' else 0
                         before = {x.address for x in w.keys(depth=5)}
-                        k = w.new_key(account_id=acc, change=change) if change == 0 else w.new_key_change(account_id=acc)
-                        history.append('%s(account=%d)' % (op, acc))
-                        have = issued.setdefault((acc, change), set())
+                        k = w.new_key(account_id=acc, change=change, witness_type=rw) if change == 0 else w.new_key_change(account_id=acc, witness_type=rw)
+                        history.append('%s(account=%d%s)' % (op, acc, tag))
+                        have = issued.setdefault((acc, change, rw), set())
                         expect = (max(have) + 1) if have else 0
-                        r = check_key(k, op, acc, change, expect)
+                        r = check_key(k, op, acc, change, expect, rw)
                         cases += 1
                         if k.address in before:
                             fail(op, {'wallet': {'witness_type': wt, 'network': net, 'seed': sd.hex()}, 'history': list(history)},
@@ -155,19 +164,19 @@ def run(tier, seed, opens):
                         if r:
                             have.add(r[2])
                     elif op in ('get_key', 'get_keys'):
-                        ks = [w.get_key(account_id=acc)] if op == 'get_key' else w.get_keys(account_id=acc, number_of_keys=3)
-                        history.append('%s(account=%d)' % (op, acc))
+                        ks = [w.get_key(account_id=acc, witness_type=rw)] if op == 'get_key' else w.get_keys(account_id=acc, number_of_keys=3, witness_type=rw)
+                        history.append('%s(account=%d%s)' % (op, acc, tag))
                         for k in ks:
-                            r = check_key(k, op, acc, 0)
+                            r = check_key(k, op, acc, 0, None, rw)
                             if r:
-                                issued.setdefault((acc, 0), set()).add(r[2])
+                                issued.setdefault((acc, 0, rw), set()).add(r[2])
                     elif op == 'key_for_path':
                         change, idx = (forced[2], forced[3]) if forced else (rng.choice([0, 1]), rng.randrange(0, 7))
-                        k = w.key_for_path([change, idx], account_id=acc)
-                        history.append('key_for_path([%d, %d], account=%d)' % (change, idx, acc))
-                        r = check_key(k, op, acc, change, idx)
+                        k = w.key_for_path([change, idx], account_id=acc, witness_type=rw)
+                        history.append('key_for_path([%d, %d], account=%d%s)' % (change, idx, acc, tag))
+                        r = check_key(k, op, acc, change, idx, rw)
                         if r:
-                            issued.setdefault((acc, change), set()).add(idx)
+                            issued.setdefault((acc, change, rw), set()).add(idx)
                     elif op == 'set_default_account':
                         w.default_account_id = acc
                         history.append('default_account_id = %d' % acc)
@@ -179,7 +188,7 @@ def run(tier, seed, opens):
                             # new_account creates the first receiving and change key of the account
                             for x in w.keys(account_id=a.account_id, depth=5):
                                 parts = x.path.split('/')
-                                issued.setdefault((a.account_id, int(parts[4])), set()).add(int(parts[5]))
+                                issued.setdefault((a.account_id, int(parts[4]), wt), set()).add(int(parts[5]))
                     else:
                         w.session.close()
                         w = Wallet(name, db_uri=db)
